@@ -82,6 +82,7 @@ type State struct {
 	notes   []string
 	closureChecks []closureCheck
 	locals        []*Ptr // non-escaping local cells: survive "modifies all"
+	trig          []Tm   // ground index terms registered as quantifier triggers
 	typeIDs map[string]bool // concrete type keys seen on this path
 	ifaces  map[string]bool
 }
@@ -102,6 +103,7 @@ func (st *State) clone() *State {
 	n.loops = append([]loopRec(nil), st.loops...)
 	n.locks = append([]string(nil), st.locks...)
 	n.locals = append([]*Ptr(nil), st.locals...)
+	n.trig = append([]Tm(nil), st.trig...)
 	n.notes = append([]string(nil), st.notes...)
 	return &n
 }
@@ -523,4 +525,30 @@ func (st *State) zeroElems(elem types.Type, ref Tm) {
 // elemAt reads element i (type elem) of backing array arr.
 func (st *State) elemPtr(elem types.Type, arr, i Tm) *Ptr {
 	return &Ptr{Kind: PElem, Base: arr, Idx: i, Root: elem}
+}
+
+// trigger: (Tr t), (Tr t+1), (Tr t-1) - the patterns of bounded quantifiers.
+func (st *State) trigger(t Tm) {
+	if t.Sort != st.m.idx() {
+		return
+	}
+	for _, o := range st.trig {
+		if o.S == t.S {
+			return
+		}
+	}
+	st.trig = append(st.trig, t)
+	uf := st.x.trUF(t.Sort)
+	one := st.m.idxLit(1)
+	st.cmds = append(st.cmds, fmt.Sprintf("(assert (and (%s %s) (%s %s) (%s %s)))", uf, t.S, uf, st.m.add(t, one).S, uf, st.m.sub(t, one).S))
+}
+
+func (st *State) trTerms(s Sort) []Tm {
+	var out []Tm
+	for i := len(st.trig) - 1; i >= 0; i-- {
+		if st.trig[i].Sort == s {
+			out = append(out, st.trig[i])
+		}
+	}
+	return out
 }
